@@ -20,7 +20,7 @@ EXPLANATION = (
     'handler derives state from the rebound field; (d) FieldUpdate payload '
     'def-use; (e) completeness of the ancestor walk.  Exactly-once / ordering '
     'for arbitrary batches is not decided.')
-FLOORS = {'C09.a': 10, 'C09.b': 2, 'C09.c': 2, 'C09.d': 1, 'C09.e': 1, 'C09.f': 4, 'C09.g': 2, 'C09.h': 3}
+FLOORS = {'C09.a': 10, 'C09.b': 2, 'C09.c': 2, 'C09.d': 1, 'C09.e': 1, 'C09.f': 4, 'C09.g': 2, 'C09.h': 3, 'C09.i': 5}
 FILES = c08.FILES + ['pyglove/ext/evolution/recombinators.py',
                      'pyglove/ext/evolution/mutators.py',
                      'pyglove/core/geno/base.py', 'pyglove/core/geno/categorical.py']
@@ -626,6 +626,89 @@ def rule_h(ctx):
     raise AnalysisError('re-index obligations not found')
 
 
+CACHE_FIELDS = ('_sym_missing_values', '_sym_nondefault_values', '_sym_puresymbolic')
+
+
+def rule_i(ctx):
+  """Derived facts (is_partial, sym_missing, sym_nondefault, is_pure_symbolic ...)
+  are memoised per node and must be recomputed after ANY mutation below the
+  node - also one made while notifications are switched off.  So in every
+  mutator the reset of those memo fields on the ancestor chain must not be
+  control-dependent on the notification flag (or on the caller's
+  skip_notification).  Today the only reset lives inside the delivery routine
+  (_notify_field_updates), which the mutators call only when notifications are
+  enabled."""
+  idx = ctx.index
+  # functions that reset the memo fields (directly)
+  def resets_here(fn):
+    return any(isinstance(c, ast.Call) and (A.call_name(c) or '').endswith('_set_raw_attr') and c.args
+               and A.const_str(c.args[0]) in CACHE_FIELDS and len(c.args) > 1 and A.unparse(c.args[1]) == 'None'
+               for c in ast.walk(fn)) or any(
+        isinstance(st, ast.Assign) and isinstance(st.targets[0], ast.Attribute) and st.targets[0].attr in CACHE_FIELDS
+        and A.unparse(st.value) == 'None' for st in ast.walk(fn))
+  resetters = set()
+  for rel in FILES:
+    m = idx.by_relpath.get(rel)
+    if m is None:
+      continue
+    for f in m.funcs.values():
+      if f.name not in ('__init__', '_init_kwargs', '__setstate__') and resets_here(f.node):
+        resetters.add(f.name)
+  if not resetters:
+    raise AnalysisError('no function resets the derived-fact caches')
+  n = 0
+  for rel in FILES:
+    m = idx.by_relpath.get(rel)
+    if m is None:
+      continue
+    for f in sorted(m.funcs.values(), key=lambda x: x.fq):
+      if f.name in resetters:
+        continue
+      g = C.cfg_of(f.node)
+      is_reset = lambda k: k.ast is not None and any((A.call_name(c) or '').split('.')[-1] in resetters for c in k.calls())
+      calls = [k for k in g.nodes if is_reset(k)]
+      if not calls:
+        continue
+      # with notifications switched off: block the "enabled" outcome of every test that consults the flag
+      blocked = set()
+      flagged = False
+      for k in g.nodes:
+        if k.kind != 'test':
+          continue
+        t = A.unparse(k.ast, 200)
+        if 'is_change_notification_enabled' in t:
+          flagged = True
+          for m2, lab in k.succ:
+            if lab == 'true':
+              blocked.add((k.id, m2.id, lab))
+        elif t in ('skip_notification',):
+          flagged = True
+          for m2, lab in k.succ:
+            if lab == 'false':
+              blocked.add((k.id, m2.id, lab))
+      if not flagged:
+        continue
+      n += 1
+      seen, _ = g.reach(g.entry, blocked_edges=blocked, follow_exc=False)
+      still = [k for k in calls if k.id in seen]
+      # a private helper is reported at the public mutators that go through it
+      # (so that the finding names an API entry point, not an internal name)
+      owners = [f]
+      if f.name.startswith('_') and not f.name.startswith('__'):
+        cls = idx.enclosing_class(f)
+        owners = [mm for mm in (cls.methods.values() if cls else []) if mm is not f and any(
+            A.call_name(c) == f'self.{f.name}' for c in A.calls_in(mm.node))] or [f]
+      for owner in sorted(owners, key=lambda x: x.fq):
+       ctx.ob('C09.i', owner.fq + '#cache-reset', bool(still),
+              'the derived-fact caches of the ancestors are reset after a mutation whether or not notifications are '
+              'enabled', owner.loc,
+              f'the only reset is inside {sorted(resetters)} (line {calls[0].lineno}), reached only when notifications are '
+              f'enabled: after a mutation under notify_on_change(False) / skip_notification the ancestors keep reporting '
+              f'the old is_partial / sym_missing / sym_nondefault')
+  if n < 5:
+    raise AnalysisError(f'only {n} mutators with a flag-guarded cache reset found')
+
+
 def run(ctx):
   ctx.consult(*FILES)
   rule_a(ctx)
@@ -636,4 +719,5 @@ def run(ctx):
   rule_f(ctx)
   rule_g(ctx)
   rule_h(ctx)
+  rule_i(ctx)
   ctx.assume('handlers of user classes outside the repository are out of scope')
